@@ -260,7 +260,7 @@ theorem arrange_ok (env : Env) (o : InOpts) (x : InXOpts) (xs ys : List Val) (st
     (h : arrange env o x xs st = (.ok ys, st')) :
     (x.sortKey = none ∧ ys = (if x.reverse then xs.reverse else xs)) ∨
     (∃ k dec st1, x.sortKey = some k ∧ sortKeys env o.mapping k xs st = (.ok dec, st1) ∧
-      ys = (if x.reverse then ((dec.mergeSort decLe).map (·.2)).reverse else (dec.mergeSort decLe).map (·.2))) := by
+      ys = (if x.reverse then ((sortDec dec).map (·.2)).reverse else (sortDec dec).map (·.2))) := by
   unfold arrange sortPart at h
   cases hk : x.sortKey with
   | none =>
@@ -282,10 +282,17 @@ theorem arrange_ok (env : Env) (o : InOpts) (x : InXOpts) (xs ys : List Val) (st
           cases h
         · simp only [hc, Bool.false_eq_true, if_false, Prod.mk.injEq, Res.ok.injEq] at h
           rw [← h.1]
-          rfl
       | raise e => simp at h
       | ret v => simp at h
       | oom => simp at h
+
+theorem sortDec_perm (dec : List Dec) : (sortDec dec).Perm dec := by
+  unfold sortDec
+  have h1 : ((dec.filter (fun d => d.1 == .smallest)).reverse ++
+      (dec.filter (fun d => !(d.1 == .smallest))).mergeSort (fun a b => SKey.le a.1 b.1)).Perm
+      (dec.filter (fun d => d.1 == .smallest) ++ dec.filter (fun d => !(d.1 == .smallest))) :=
+    (List.reverse_perm _).append (List.mergeSort_perm _ _)
+  exact h1.trans (List.filter_append_perm _ dec)
 
 /-- **the elements shown are a permutation of the caller's elements** (nothing lost, nothing shown twice) -/
 theorem arrange_perm (env : Env) (o : InOpts) (x : InXOpts) (xs ys : List Val) (st st' : St)
@@ -295,21 +302,71 @@ theorem arrange_perm (env : Env) (o : InOpts) (x : InXOpts) (xs ys : List Val) (
     · exact List.reverse_perm xs
     · exact List.Perm.refl xs
   · have he := sortKeys_elements env o.mapping k xs st st1 dec hd
-    have hp : ((dec.mergeSort decLe).map (·.2)).Perm xs := by
-      rw [← he]; exact (List.mergeSort_perm dec decLe).map _
+    have hp : ((sortDec dec).map (·.2)).Perm xs := by
+      rw [← he]; exact (sortDec_perm dec).map _
     split
     · exact (List.reverse_perm _).trans hp
     · exact hp
 
-/-- **sorted**: without `reverse`, every shown element's key is ≤ the key of every later one (a `None` / missing key,
-or a callable key that raised, is the smallest) -/
-theorem arrange_ordered (dec : List Dec) : (dec.mergeSort decLe).Pairwise (fun a b => SKey.le a.1 b.1 = true) :=
-  List.pairwise_mergeSort decLe_trans decLe_total dec
+theorem le_smallest (a b : Dec) (ha : (a.1 == SKey.smallest) = true) : SKey.le a.1 b.1 = true := by
+  have : a.1 = .smallest := by simpa using ha
+  rw [this]
+  cases b.1 <;> simp [SKey.le, SKey.rank]
 
-/-- **stable**: two elements that do not compare greater keep their relative order (equal keys in particular) -/
-theorem arrange_stable (dec : List Dec) (a b : Dec) (hab : SKey.le a.1 b.1 = true) (h : [a, b].Sublist dec) :
-    [a, b].Sublist (dec.mergeSort decLe) :=
-  List.pair_sublist_mergeSort decLe_trans decLe_total hab h
+/-- **sorted**: without `reverse`, every shown element's key is ≤ the key of every later one; a `None` / missing key
+(or a callable key that raised) is the smallest, so those elements come first -/
+theorem arrange_ordered (dec : List Dec) : (sortDec dec).Pairwise (fun a b => SKey.le a.1 b.1 = true) := by
+  unfold sortDec
+  rw [List.pairwise_append]
+  refine ⟨?_, List.pairwise_mergeSort decLe_trans decLe_total _, ?_⟩
+  · rw [List.pairwise_reverse]
+    apply List.Pairwise.imp_of_mem (R := fun _ _ => True)
+    · intro a b ha hb _
+      exact le_smallest b a (by simpa using (List.mem_filter.mp hb).2)
+    · exact List.pairwise_of_forall (fun _ _ => trivial)
+  · intro a ha b hb
+    exact le_smallest a b (by simpa using (List.mem_filter.mp (List.mem_reverse.mp ha)).2)
+
+/-- **`None` / missing keys first**: an element whose key is `_Smallest` is never shown after one that has a key -/
+theorem none_keys_first (dec : List Dec) (a b : Dec) (ha : a.1 = .smallest) (hb : b.1 ≠ .smallest)
+    (h : [b, a].Sublist (sortDec dec)) : False := by
+  unfold sortDec at h
+  have hpw : ((dec.filter (fun d => d.1 == .smallest)).reverse ++
+      (dec.filter (fun d => !(d.1 == .smallest))).mergeSort (fun a b => SKey.le a.1 b.1)).Pairwise
+      (fun x y => ¬ (x.1 ≠ .smallest ∧ y.1 = .smallest)) := by
+    rw [List.pairwise_append]
+    refine ⟨?_, ?_, ?_⟩
+    · apply List.Pairwise.imp_of_mem (R := fun _ _ => True)
+      · intro x y hx _ _ hc
+        have := (List.mem_filter.mp (List.mem_reverse.mp hx)).2
+        exact hc.1 (by simpa using this)
+      · exact List.pairwise_of_forall (fun _ _ => trivial)
+    · apply List.Pairwise.imp_of_mem (R := fun _ _ => True)
+      · intro x y _ hy _ hc
+        have hy' := (List.mem_filter.mp ((List.mergeSort_perm _ _).mem_iff.mp hy)).2
+        simp only [Bool.not_eq_true', beq_eq_false_iff_ne, ne_eq] at hy'
+        exact hy' hc.2
+      · exact List.pairwise_of_forall (fun _ _ => trivial)
+    · intro x hx y _ hc
+      have := (List.mem_filter.mp (List.mem_reverse.mp hx)).2
+      exact hc.1 (by simpa using this)
+  have := (hpw.sublist h)
+  simp only [List.pairwise_cons, List.mem_singleton, forall_eq, List.not_mem_nil, false_implies, implies_true,
+    List.Pairwise.nil, and_true] at this
+  exact this ⟨hb, ha⟩
+
+/-- **stable**: two elements that have keys and do not compare greater keep their relative order (equal keys in
+particular).  (Elements whose key is `_Smallest` are listed in the reverse of their original order — the property leaves
+their mutual order open.) -/
+theorem arrange_stable (dec : List Dec) (a b : Dec) (ha : a.1 ≠ .smallest) (hb : b.1 ≠ .smallest)
+    (hab : SKey.le a.1 b.1 = true) (h : [a, b].Sublist dec) : [a, b].Sublist (sortDec dec) := by
+  unfold sortDec
+  have hf : [a, b].Sublist (dec.filter (fun d => !(d.1 == .smallest))) := by
+    have := h.filter (fun d => !(d.1 == .smallest))
+    have ha' : (!(a.1 == SKey.smallest)) = true := by simpa using ha
+    have hb' : (!(b.1 == SKey.smallest)) = true := by simpa using hb
+    simpa [List.filter, ha', hb'] using this
+  exact (List.pair_sublist_mergeSort decLe_trans decLe_total hab hf).trans (List.sublist_append_right _ _)
 
 /-- **`reverse`** shows the exact reverse of what is shown without it -/
 theorem arrange_reverse (env : Env) (o : InOpts) (k : Option Render.Text) (b : Option BatchP) (xs ys : List Val) (st st' : St)
